@@ -36,7 +36,7 @@ CONSTANTS MaxK, MaxB,
 LenOf(k) == CASE k = "aes16" -> 16 [] k = "aes32" -> 32 [] k = "des3" -> 24 [] k = "gen16" -> 16 [] k = "gen20" -> 20
               [] k = "gen24" -> 24 [] k = "gen32" -> 32 [] k = "gen64" -> 64 [] OTHER -> 0
 IsAes(k) == k \in {"aes16", "aes32"}
-Sym(k)   == k \notin {"rsa", "dh", "ec"}
+Sym(k)   == k \notin {"rsa", "dh", "ec", "ed", "dsa"}
 
 VARIABLES key,   \* [1..MaxK -> [st, kind, v]]   v: index into tbl
           blob,  \* [1..MaxB -> [st, m, wv, kv, kk, iv, bad]]
@@ -65,7 +65,7 @@ NewKey(kind, term) == /\ nk < MaxK /\ nk' = nk + 1 /\ Put(term)
 Fail(rv) == out' = Out(rv, 0, 0, 0, 0) /\ UNCHANGED <<key, nk, tbl>>
 
 MImport(kind, i) == /\ "imp" \in Acts /\ kind \in Kinds /\ i \in ImpIdx /\ NewKey(kind, Term("imp", kind, i, "", 0)) /\ UNCHANGED <<blob, nb>>
-MGenerate(kind)  == /\ "gen" \in Acts /\ kind \in Kinds \ {"rsa", "dh", "ec"}
+MGenerate(kind)  == /\ "gen" \in Acts /\ kind \in Kinds \ {"rsa", "dh", "ec", "ed", "dsa"}
                     /\ NewKey(kind, Term("gen", kind, nk + 1, "", 0)) /\ UNCHANGED <<blob, nb>>
 
 \* ---- wrap / unwrap
@@ -143,13 +143,15 @@ MValue(k) == /\ "value" \in Acts /\ Live(k) /\ (Sym(key[k].kind) \/ key[k].kind 
 
 \* ---- deterministic operations: the output is a function of (mode, key value, data) - not of the chunking
 ModeKeyOK(mode, kind) ==
-    CASE mode \in {"aes-ecb", "aes-cbc", "aes-cbcpad", "aes-ctr", "aes-gcm", "aes-cmac"} -> IsAes(kind)
+    CASE mode \in {"aes-ecb", "aes-cbc", "aes-cbcpad", "aes-ctr", "aes-gcm", "aes-cmac", "aes-gcm2", "aes-ctr64"} -> IsAes(kind)
       [] mode \in {"des3-cbcpad", "des3-cmac", "des3-ecb"} -> kind = "des3"
       \* (SoftHSM wants an HMAC key at least as long as the digest)
       [] mode = "hmac-sha1"   -> kind \in {"gen20", "gen24", "gen32", "gen64"}
       [] mode = "hmac-sha256" -> kind \in {"gen32", "gen64"}
       [] mode = "hmac-sha512" -> kind = "gen64"
-      [] mode \in {"rsa-pkcs", "sha256-rsa-pkcs", "sha256-rsa-pss", "rsa-oaep", "rsa-pkcs-enc"} -> kind = "rsa"
+      [] mode \in {"rsa-pkcs", "sha256-rsa-pkcs", "sha256-rsa-pss", "rsa-oaep", "rsa-pkcs-enc", "rsa-x509"} -> kind = "rsa"
+      [] mode = "eddsa" -> kind = "ed"
+      [] mode = "dsa-sha256" -> kind = "dsa"
       [] mode = "ecdsa" -> kind = "ec"
       [] OTHER -> FALSE
 NeedsBlocks(mode) == mode \in {"aes-ecb", "aes-cbc", "des3-ecb"}
@@ -169,12 +171,13 @@ MRCrypt(mode, k, d) ==
 
 KS == 1 .. MaxK
 BS == 1 .. MaxB
-AllKinds == {"aes16", "aes32", "des3", "gen16", "gen20", "gen24", "gen32", "gen64", "rsa", "dh", "ec"}
+AllKinds == {"aes16", "aes32", "des3", "gen16", "gen20", "gen24", "gen32", "gen64", "rsa", "dh", "ec", "ed", "dsa"}
 AllWrap  == {"KW", "KWP", "CBC", "CBCPAD", "RSA", "OAEP"}
 AllDer   == {"ECB", "CBCD", "CATBD", "CATDB", "DH", "ECDH"}
 AllModes == {"aes-ecb", "aes-cbc", "aes-cbcpad", "aes-ctr", "aes-gcm", "aes-cmac", "des3-cbcpad", "des3-cmac", "des3-ecb",
-             "hmac-sha256", "hmac-sha1", "hmac-sha512", "rsa-pkcs", "sha256-rsa-pkcs"}
-AllR     == {"sha256-rsa-pss", "rsa-oaep", "rsa-pkcs-enc", "ecdsa"}
+             "hmac-sha256", "hmac-sha1", "hmac-sha512", "rsa-pkcs", "sha256-rsa-pkcs", "aes-gcm2", "aes-ctr64", "rsa-x509",
+             "eddsa"}
+AllR     == {"sha256-rsa-pss", "rsa-oaep", "rsa-pkcs-enc", "ecdsa", "dsa-sha256"}
 Next == \/ \E kind \in AllKinds, i \in 1 .. 2 : MImport(kind, i)
         \/ \E kind \in AllKinds : MGenerate(kind)
         \/ \E m \in AllWrap, w \in KS, k \in KS, iv \in 0 .. 2 : MWrap(m, w, k, iv)
